@@ -135,3 +135,83 @@ ENV.update({
     "origin": lambda t: getattr(t, "__origin__", None),
     "td_req": lambda t: field_annotations(t)[0], "td_opt": lambda t: field_annotations(t)[1],
 })
+
+
+# ---- conformance oracle mem(v, t) on real values / typing objects (reference, independent of the repo's inference)
+import types as _pytypes
+
+_CALLABLE_TYPES = (_pytypes.FunctionType, _pytypes.LambdaType, _pytypes.MethodType, _pytypes.BuiltinMethodType, _pytypes.BuiltinFunctionType)
+
+
+@spec
+def mem(v, t):
+    k = kind(t)
+    if k == "Any":
+        return True
+    if k == "Class":
+        return isinstance(v, t) if t is not NoneType else v is None
+    if k == "Union":
+        return any(mem(v, a) for a in t.__args__)
+    if k == "List":
+        return isinstance(v, list) and all(mem(e, t.__args__[0]) for e in v)
+    if k == "Set":
+        return isinstance(v, set) and all(mem(e, t.__args__[0]) for e in v)
+    if k == "Tuple":
+        return isinstance(v, tuple) and len(v) == len(t.__args__) and all(mem(e, a) for e, a in zip(v, t.__args__))
+    if k == "TupleVar":
+        return isinstance(v, tuple) and all(mem(e, t.__args__[0]) for e in v)
+    if k == "Dict":
+        return isinstance(v, dict) and all(mem(kk, t.__args__[0]) and mem(vv, t.__args__[1]) for kk, vv in v.items())
+    if k == "DefaultDict":
+        return isinstance(v, collections.defaultdict) and all(mem(kk, t.__args__[0]) and mem(vv, t.__args__[1]) for kk, vv in v.items())
+    if k == "Type":
+        return isinstance(v, type) and issubclass(v, t.__args__[0])
+    if k == "Callable":
+        return callable(v)
+    if k == "Iterator":
+        return isinstance(v, _pytypes.GeneratorType) or hasattr(v, "__next__")
+    if k == "Generator":
+        return isinstance(v, _pytypes.GeneratorType)
+    if k == "TD":
+        req, opt = field_annotations(t)
+        if not isinstance(v, dict):
+            return False
+        if not all(isinstance(kk, str) for kk in v):
+            return False
+        if not all(kk in v and mem(v[kk], req[kk]) for kk in req):
+            return False
+        return all((kk in req) or (kk in opt and mem(v[kk], opt[kk])) for kk in v)
+    if k == "NamedTD":
+        ann = t.__annotations__
+        return isinstance(v, dict) and all((kk in ann and mem(vv, ann[kk])) for kk, vv in v.items()) and \
+            (not getattr(t, "__total__", True) or all(kk in v for kk in ann))
+    raise ValueError("mem: unsupported type %r" % (t,))
+
+
+def td_nodes(t, _acc=None):
+    """All anonymous-TypedDict nodes inside t."""
+    acc = [] if _acc is None else _acc
+    k = kind(t)
+    if k == "TD":
+        acc.append(t)
+        req, opt = field_annotations(t)
+        for x in list(req.values()) + list(opt.values()):
+            td_nodes(x, acc)
+    elif k in ("Union", "List", "Set", "Dict", "DefaultDict", "Tuple", "TupleVar", "Type", "Iterator", "Generator"):
+        for a in t.__args__:
+            if a is not Ellipsis:
+                td_nodes(a, acc)
+    return acc
+
+
+ENV["td_nodes"] = td_nodes
+
+
+@spec
+def td_ok(t, k):
+    for n in td_nodes(t):
+        req, opt = field_annotations(n)
+        size = len(req) + len(opt)
+        if size == 0 or (k is not None and size > k) or set(req) & set(opt) or not all(isinstance(x, str) for x in list(req) + list(opt)):
+            return False
+    return True
